@@ -106,6 +106,7 @@ func AfterFunc(d Duration, f func()) *Timer {
 		if s2 := vsched.Active(); s2 == s {
 			done := s.EnterTimer(seq)
 			defer done()
+			defer vsched.RecoverGo()
 		}
 		f()
 	})
